@@ -301,6 +301,17 @@ def holeOut : Obj → Bool
   | .coll _ cs _ _ => cs.attach.any (fun ⟨c, _⟩ => holeOut c)
   | _ => false
 
+/-- the number of positions of an object, counted directly (a Circle counts as one) -/
+def specNumPoints : Obj → Nat
+  | .point _ _ => 1
+  | .spoint _ => 1
+  | .lineString _ ps _ => ps.length
+  | .polygon _ rs _ => (rs.map List.length).sum
+  | .rectO _ _ _ => 2
+  | .circle _ _ => 1
+  | .feature b _ => specNumPoints b
+  | .coll _ cs _ _ => (cs.attach.map (fun ⟨c, _⟩ => specNumPoints c)).sum
+
 def attrsSpec (o : Obj) : String :=
   let ps := partPositions o
   let bb := (bboxSpec ps).getD ⟨⟨0,0⟩,⟨0,0⟩⟩
@@ -311,7 +322,7 @@ def attrsSpec (o : Obj) : String :=
   let emp := match o with
     | .rectO _ _ _ => false
     | _ => ps.isEmpty
-  s!"{b2s emp}{b2s ((allPositions o).all Pt.valid)} {ratS bb.min.x},{ratS bb.min.y},{ratS bb.max.x},{ratS bb.max.y} {ratS c.x},{ratS c.y} -"
+  s!"{b2s emp}{b2s ((allPositions o).all Pt.valid)} {ratS bb.min.x},{ratS bb.min.y},{ratS bb.max.x},{ratS bb.max.y} {ratS c.x},{ratS c.y} {specNumPoints o}"
 
 def isLeafDeep : Obj → Bool
   | .coll _ _ _ _ => false
